@@ -68,7 +68,7 @@ class C09(P.Property):
     probe_names = ["scheme_" + s for s in fe.SCHEMES] + ["recreate_before_" + w for w in WORKFLOW[1:]] + [
         "recreate_before_first_search", "recreate_between_searches", "kept_object_whole_workflow", "server_restart_before_first_search",
         "server_restart_between_searches", "recreate_inside_cleanup_window", "absent_keyword", "near_miss_keyword", "nondefault_config",
-        "stall_over_60s", "decoy_service", "decoy_other_config", "idle_connection", "op_failed_under_fault", "server_read_error", "client_object_kept_after_fault", "blocked_by_other_connection", "real_restart_new_interpreter", "separate_hosts", "server_killed_mid_request"]
+        "stall_over_60s", "decoy_service", "decoy_other_config", "idle_connection", "op_failed_under_fault", "server_read_error", "client_object_kept_after_fault", "blocked_by_other_connection", "real_restart_new_interpreter", "separate_hosts", "server_killed_mid_request", "request_while_server_down", "client_built_outside_loop"]
     thorough_probe_names = ["huge_payload"]
 
     def setup(self):
@@ -175,6 +175,11 @@ class C09(P.Property):
         knobs["blocker"] = None
         if knobs["stall"] is None and knobs["read_fault"] is None and knobs["kill_mid"] is None and rng.random() < 0.06:
             knobs["blocker"] = {"search": rng.randrange(len(steps)), "hold": rng.choice([5, 30, 70, 70])}
+        knobs["server_down"] = None
+        if knobs["stall"] is None and knobs["read_fault"] is None and knobs["kill_mid"] is None and knobs["blocker"] is None and rng.random() < 0.06:
+            # the server is not running when a new client object sends this request; it is started afterwards and the same object tries again
+            knobs["server_down"] = {"search": rng.randrange(len(steps)), "wait": rng.choice([0.01, 1.0, 30.0])}
+        knobs["sync_construct"] = rng.random() < 0.2  # client objects are built outside any running event loop (synchronous code, asyncio.run later)
         if rng.random() < 0.25:
             knobs["mtime_gran"] = rng.choice([1, 2])  # coarse file time stamps
         if rng.random() < 0.15:
@@ -237,6 +242,8 @@ class C09(P.Property):
             probes["huge_payload"] = 1
         if knobs.get("separate_hosts"):
             probes["separate_hosts"] = 1
+        if knobs.get("sync_construct"):
+            probes["client_built_outside_loop"] = 1
         L, cfg = fe.default_config(scheme)
         cfg.update(GRID[scheme][knobs["cfg_index"]])
         default_cfg = knobs["cfg_index"] == 0
@@ -375,6 +382,22 @@ class C09(P.Property):
                 probes["server_killed_mid_request"] = 1
                 kill_handle = loop.call_later(km["after"], run.kill_server)
                 stalled = True
+            dn = knobs.get("server_down")
+            if dn is not None and dn["search"] == si and not after_fault:
+                probes["request_while_server_down"] = 1
+                run.sim.count("server_down_request")
+                await host.drop()
+                run.kill_server()
+                await asyncio.sleep(0.2)
+                r0 = await host.search(sid, w, fresh=True, keep=True)  # cannot succeed; the application keeps the object
+                if r0[0] == "ok" and r0[1][0]:
+                    viol.append(V("C09.search", "WRONG_RESULT", f"search({st['w']!r}) delivered a result although no server was running", site="search"))
+                    return
+                out["obs"].append(("search", "server-down", "failed"))
+                out["restarts"] += 1
+                run.boot_server()
+                await asyncio.sleep(dn["wait"])
+                # the same object tries again below: it never had a connection, there is no dead socket involved, so this search counts
             rf = knobs.get("read_fault")
             if rf is not None and rf["search"] == si:
                 run.seam.fail_read = ("server", "edb")  # the server's next read of the stored index fails once (EMFILE)
@@ -534,7 +557,7 @@ class C09(P.Property):
     def simplifications(self, plan):
         k = plan["knobs"]
         for key, val in (("skew", 1.0), ("bufsize", 8192), ("net", dict(lo=0.01, hi=0.01)), ("stall", None), ("restart_after_upload", False),
-                         ("recreate", [False] * 5), ("gaps", [0] * 5), ("cfg_index", 0), ("decoy", False), ("sse2_spare", 0), ("read_fault", None), ("blocker", None), ("real_restart", False), ("separate_hosts", False), ("kill_mid", None), ("mtime_gran", None), ("reboot_clock", None)):
+                         ("recreate", [False] * 5), ("gaps", [0] * 5), ("cfg_index", 0), ("decoy", False), ("sse2_spare", 0), ("read_fault", None), ("blocker", None), ("real_restart", False), ("separate_hosts", False), ("kill_mid", None), ("mtime_gran", None), ("reboot_clock", None), ("server_down", None), ("sync_construct", False)):
             if k.get(key) != val:
                 yield dict(plan, knobs=dict(k, **{key: val}))
         db = k["db"]
